@@ -201,7 +201,12 @@ func (c *Ctx) finish(pc *propCheck) int {
 		// violated shape may legitimately have fewer instances: the report
 		// takes precedence over the vacuity guard.
 		if n < min && !anyFail {
-			c.broken("rule %s matched %d instance(s), fewer than the %d confirmed by hand: anchor moved?", rule, n, min)
+			// The sites this rule was confirmed on by hand are gone: the rule
+			// can no longer establish the property for them. That is reported
+			// as a violation of the rule (exit 1), naming the rule and the
+			// counts, not as a silent pass and not as a crash of the checker.
+			c.Obls = append(c.Obls, Obligation{Rule: rule, Key: rule + "@instances", Pos: "-", OK: false,
+				Detail: fmt.Sprintf("rule %s matched %d instance(s), fewer than the %d confirmed by hand on the reference tree: the construct the rule anchors on was removed or rewritten in a form the rule does not recognise, so what it guaranteed there is no longer established", rule, n, min)})
 		}
 	}
 	if len(c.Obls) == 0 {
